@@ -296,6 +296,30 @@ pub fn run_c17(tier: &str, root: &Path) -> Value {
                     rep.violation("lock-tamper-accepted", off as u64, json!({"size": n, "label": g.label, "file": "lock", "edit": format!("hexdigit@{}", off)}), "lockfile checksum edited but load+check succeeded".into());
                 }
             }
+            // the checksum shortened to each of its proper prefixes (including the empty string),
+            // with one character deleted at each position, and with one character appended
+            let mut variants: Vec<(String, Vec<u8>)> = vec![];
+            for keep in 0..64usize {
+                let mut b = g.lock[..start + keep].to_vec();
+                b.extend_from_slice(&g.lock[start + 64..]);
+                variants.push((format!("prefix{}", keep), b));
+            }
+            for del in 0..64usize {
+                let mut b = g.lock.clone();
+                b.remove(start + del);
+                variants.push((format!("delete@{}", del), b));
+            }
+            let mut b = g.lock.clone();
+            b.insert(start + 64, b'0');
+            variants.push(("append0".to_string(), b));
+            for (name, b) in variants {
+                rep.eval(1);
+                rep.nontrivial(1);
+                std::fs::write(&wl, &b).unwrap();
+                if let Ok(Ok(_)) = load(&wc, &dir) {
+                    rep.violation("lock-tamper-accepted", 100, json!({"size": n, "label": g.label, "file": "lock", "edit": name}), format!("lockfile checksum changed ({}) but load+check succeeded", name));
+                }
+            }
             std::fs::write(&wl, &g.lock).unwrap();
             // and everything is usable again once restored
             rep.eval(1);
@@ -309,13 +333,47 @@ pub fn run_c17(tier: &str, root: &Path) -> Value {
     rep.sample(json!({"label": "s150", "file": "generated", "edit": "insert_space@17", "expect": "load+check fails"}));
     rep.sample(json!({"label": "s70k", "file": "generated", "edit": "xor01@69000", "expect": "load+check fails"}));
     rep.finish(
-        "for source configurations whose generated file is ~150 B, ~4 KiB, 8191, 8192, 8193, ~20 KiB and ~70 KiB (generated by the real `config generate`): untouched files must load and pass the integrity check; every offset of the generated file x {xor 0x01, xor 0x20, delete, insert space}, truncation at every multiple of 64 and at end-1, three appends; every offset of the source x the same edits, every other case with the edited source's modification time set far into the past (quick: stride 7 for sources above 10 KB, 31 above 32 KB; generated files above 32 KB at stride 3 plus every offset within 8 bytes of a multiple of 8192 and the last 64 bytes; thorough: every offset everywhere); every hex digit of the lockfile checksum; all must be rejected; non-trivial = edits after which the file still denotes the same JSON value (only the checksum can notice) plus all lockfile/source-append edits",
+        "for source configurations whose generated file is ~150 B, ~4 KiB, 8191, 8192, 8193, ~20 KiB and ~70 KiB (generated by the real `config generate`): untouched files must load and pass the integrity check; every offset of the generated file x {xor 0x01, xor 0x20, delete, insert space}, truncation at every multiple of 64 and at end-1, three appends; every offset of the source x the same edits, every other case with the edited source's modification time set far into the past (quick: stride 7 for sources above 10 KB, 31 above 32 KB; generated files above 32 KB at stride 3 plus every offset within 8 bytes of a multiple of 8192 and the last 64 bytes; thorough: every offset everywhere); every hex digit of the lockfile checksum, every proper prefix of it, every single-character deletion and an appended digit; all must be rejected; non-trivial = edits after which the file still denotes the same JSON value (only the checksum can notice) plus all lockfile/source-append edits",
         true,
         json!({"sizes": sizes.iter().map(|s| s.0).collect::<Vec<_>>(), "edits": 4}),
     )
 }
 
 // ------------------------------------------------------------------------------ C18
+
+thread_local! {
+    static ESCAPE_STYLE: std::cell::Cell<u8> = const { std::cell::Cell::new(0) };
+}
+
+/// JSON string literal in one of several equivalent spellings: 0 = serde_json's, 1 = `/` written
+/// as `\/`, 2 = every non-ASCII character as \uXXXX (surrogate pairs), 3 = every character as \uXXXX
+fn ser_str(s: &str) -> String {
+    let esc = ESCAPE_STYLE.with(|c| c.get());
+    if esc == 0 {
+        return serde_json::to_string(s).unwrap();
+    }
+    let mut o = String::from("\"");
+    for ch in s.chars() {
+        let plain = ch != '"' && ch != '\\' && (ch as u32) >= 0x20;
+        let force = match esc {
+            1 => ch == '/',
+            2 => !ch.is_ascii(),
+            _ => true,
+        };
+        if esc == 1 && ch == '/' {
+            o.push_str("\\/");
+        } else if force || !plain {
+            let mut buf = [0u16; 2];
+            for u in ch.encode_utf16(&mut buf) {
+                o.push_str(&format!("\\u{:04x}", u));
+            }
+        } else {
+            o.push(ch);
+        }
+    }
+    o.push('"');
+    o
+}
 
 /// minimal JSON writer with caller-chosen key order and layout
 fn ser(v: &Value, top_perm: &[usize], tgt_perm: &[usize], style: u8, depth: usize, out: &mut String) {
@@ -351,7 +409,7 @@ fn ser(v: &Value, top_perm: &[usize], tgt_perm: &[usize], style: u8, depth: usiz
                     out.push(',');
                 }
                 nl(out, depth + 1);
-                out.push_str(&serde_json::to_string(keys[i]).unwrap());
+                out.push_str(&ser_str(keys[i]));
                 out.push(':');
                 if style > 0 {
                     out.push(' ');
@@ -377,6 +435,7 @@ fn ser(v: &Value, top_perm: &[usize], tgt_perm: &[usize], style: u8, depth: usiz
             }
             out.push(']');
         }
+        Value::String(st) => out.push_str(&ser_str(st)),
         other => out.push_str(&other.to_string()),
     }
 }
@@ -438,6 +497,16 @@ pub fn run_c18(tier: &str, root: &Path) -> Value {
                         sers.push((format!("style{}+pad{}@{}", style, total, place), p));
                     }
                 }
+            }
+        }
+        // the same value with its strings spelled differently (escaped solidus, \u escapes)
+        for esc in 1..=3u8 {
+            for style in [0u8, 1] {
+                ESCAPE_STYLE.with(|c| c.set(esc));
+                let mut t = String::new();
+                ser(base, &ident, &tident, style, 0, &mut t);
+                ESCAPE_STYLE.with(|c| c.set(0));
+                sers.push((format!("escape{}+style{}", esc, style), t));
             }
         }
         if *bname == "small3" {
@@ -512,7 +581,7 @@ pub fn run_c18(tier: &str, root: &Path) -> Value {
     rep.sample(json!({"base": "small3", "serialisation": "style1+pad8193@2", "bytes": 8193}));
     rep.sample(json!({"base": "t300", "serialisation": "style0", "note": "300 targets compact"}));
     rep.finish(
-        "bases {3 targets with uses/ignores/sequences/server, 40 targets, 300 targets} x serialisations {compact, pretty(2 spaces), pretty(tab)} x {as is, trailing newline, CRLF} x whitespace padding to total sizes {4096, 8191, 8192, 8193, 16384, 65535, 65536, 65537, 262144} at {start, after first brace, between two targets, end}; for the small base (which contains a 2-byte and a 4-byte UTF-8 character) also paddings that put every byte of those characters on every multiple of 8192 up to 64 KiB, every top-level key permutation (quick: every 7th) and every per-target key order; oracle: every serialisation is accepted by Config::new+check and yields the same configuration value as the compact form; non-trivial = serialisations larger than 8192 bytes",
+        "bases {3 targets with uses/ignores/sequences/server, 40 targets, 300 targets} x serialisations {compact, pretty(2 spaces), pretty(tab)} x {as is, trailing newline, CRLF} x string spellings {as is, escaped solidus, \\u escapes for non-ASCII, \\u escapes for every character} x whitespace padding to total sizes {4096, 8191, 8192, 8193, 16384, 65535, 65536, 65537, 262144} at {start, after first brace, between two targets, end}; for the small base (which contains a 2-byte and a 4-byte UTF-8 character) also paddings that put every byte of those characters on every multiple of 8192 up to 64 KiB, every top-level key permutation (quick: every 7th) and every per-target key order; oracle: every serialisation is accepted by Config::new+check and yields the same configuration value as the compact form; non-trivial = serialisations larger than 8192 bytes",
         true,
         json!({"bases": 3, "pad_sizes": sizes}),
     )
